@@ -4,11 +4,11 @@ import (
 	"fmt"
 	"sync"
 
+	"lunar/engine/metrics"
+	streamconfig "lunar/engine/streams/config"
 	publictypes "lunar/engine/streams/public-types"
 	resourcetypes "lunar/engine/streams/resources/types"
 	resourceutils "lunar/engine/streams/resources/utils"
-	streamconfig "lunar/engine/streams/config"
-	"lunar/engine/metrics"
 )
 
 func c18Engine(w *c04World, withQuota bool) *Stream {
@@ -30,7 +30,19 @@ func c18Engine(w *c04World, withQuota bool) *Stream {
 		verifAssume(err == nil)
 		flowData = map[publictypes.ComparableFilter]*resourceutils.SystemFlowRepresentation{filter.ToComparable(): sfr}
 	}
-	s, err := c04Load(w, []*c04FlowSpec{u}, flowData)
+	specs := []*c04FlowSpec{u}
+	if verifParam("wild", 0) == 1 {
+		// three user flows on a less specific filter plus one flow on each of two specific URLs
+		one := func(name, url, key string) *c04FlowSpec {
+			w.out[key] = ""
+			return &c04FlowSpec{name: name, url: url, procs: []string{key},
+				req: []c04Conn{{from: "", to: key}, {from: key, to: ""}},
+				res: []c04Conn{{from: "", to: key}, {from: key, to: ""}}}
+		}
+		specs = append(specs, one("W1", "h.com/*", "w1"), one("W2", "h.com/*", "w2"), one("W3", "h.com/*", "w3"),
+			one("A", "h.com/a", "a0"), one("B", "h.com/b", "b0"))
+	}
+	s, err := c04Load(w, specs, flowData)
 	verifAssert(err == nil, "engine loads")
 	return s
 }
@@ -53,6 +65,23 @@ func VerifC18Txns() {
 	w := &c04World{out: map[string]string{}, early: map[string]bool{}}
 	withQuota := verifParam("quota", 0) == 1
 	s := c18Engine(w, withQuota)
+	urls := []string{"h.com/x", "h.com/x"}
+	if verifParam("wild", 0) == 1 {
+		urls = []string{"h.com/a", "h.com/b"}
+	}
+	responses := verifParam("responses", 1) == 1
+	// what each transaction runs when it is handled alone
+	var alone [2][2][]string
+	for k := 0; k < 2; k++ {
+		id := fmt.Sprintf("s%d", k)
+		verifAssert(s.ExecuteFlow(c04NewStream(id, urls[k], false), c04Actions()) == nil, "transaction failed")
+		alone[k][0] = c18TraceOf(w, id, false)
+		if responses {
+			verifAssert(s.ExecuteFlow(c04NewStream(id, urls[k], true), c04Actions()) == nil, "transaction failed")
+			alone[k][1] = c18TraceOf(w, id, true)
+		}
+		verifAssert(len(alone[k][0]) > 0, "the transaction matches a flow")
+	}
 	verifSched(int(verifParam("preempt", 2)))
 	verifRaceDetect(true)
 	var wg sync.WaitGroup
@@ -62,9 +91,9 @@ func VerifC18Txns() {
 		go func(k int) {
 			defer wg.Done()
 			id := fmt.Sprintf("t%d", k)
-			errs[2*k] = s.ExecuteFlow(c04NewStream(id, "h.com/x", false), c04Actions())
-			if verifParam("responses", 1) == 1 {
-				errs[2*k+1] = s.ExecuteFlow(c04NewStream(id, "h.com/x", true), c04Actions())
+			errs[2*k] = s.ExecuteFlow(c04NewStream(id, urls[k], false), c04Actions())
+			if responses {
+				errs[2*k+1] = s.ExecuteFlow(c04NewStream(id, urls[k], true), c04Actions())
 			}
 		}(k)
 	}
@@ -74,15 +103,14 @@ func VerifC18Txns() {
 	for k := 0; k < 2; k++ {
 		id := fmt.Sprintf("t%d", k)
 		verifAssert(errs[2*k] == nil && errs[2*k+1] == nil, "a concurrent transaction failed")
-		want := []string{"u0", "u1"}
-		if withQuota {
-			want = []string{"q0_Inc", "u0", "u1"}
+		if !c04Same(c18TraceOf(w, id, false), alone[k][0]) {
+			verifNote(fmt.Sprintf("transaction %s ran %v on its request, alone it runs %v", id, c18TraceOf(w, id, false), alone[k][0]))
 		}
-		verifAssert(c04Same(c18TraceOf(w, id, false), want),
-			fmt.Sprintf("transaction %s ran %v on its request instead of %v", id, c18TraceOf(w, id, false), want))
-		if verifParam("responses", 1) == 1 {
-			verifAssert(c04Same(c18TraceOf(w, id, true), []string{"u1", "u0"}),
-				fmt.Sprintf("transaction %s ran %v on its response instead of [u1 u0]", id, c18TraceOf(w, id, true)))
+		verifAssert(c04Same(c18TraceOf(w, id, false), alone[k][0]),
+			"a concurrent transaction ran other processors on its request than it runs when handled alone")
+		if responses {
+			verifAssert(c04Same(c18TraceOf(w, id, true), alone[k][1]),
+				"a concurrent transaction ran other processors on its response than it runs when handled alone")
 		}
 	}
 }
